@@ -234,7 +234,6 @@ def run_t1(rep: Report, modnames, pid=None, quick=True, monitor_cases=200):
         rep.functions_under_contract[c.key] = "T1 (proved, unbounded) + T3 monitor of the same contract"
         for d in r["dropped"]:
             rep.dropped.append(f"{c.short}: {d}")
-        base = set(baseline.get(c.key, []))
         # bounded monitor of the same contract: cross-check of the encoder and
         # source of concrete counterexamples
         nmon, viol = monitors.get(c.key, (0, None))
@@ -250,6 +249,10 @@ def run_t1(rep: Report, modnames, pid=None, quick=True, monitor_cases=200):
             rep.pre_sat += 0 if r["pre_sat"] == "unsat" else 1
             if not r["obligations"]:
                 rep.crash(f"{c.target}: zero obligations generated")
+            expected = baseline.get(c.key)
+            if isinstance(expected, int) and len(r["obligations"]) < 0.6 * expected:
+                # vacuity guard: the contract used to generate many more obligations
+                rep.crash(f"{c.key}: only {len(r['obligations'])} obligations generated, {expected} recorded on the pinned tree (contract or encoder became vacuous?)")
             bad = []
             for o in r["obligations"]:
                 name = f"{c.short} :: {o['label']}"
@@ -295,6 +298,23 @@ def run_t1(rep: Report, modnames, pid=None, quick=True, monitor_cases=200):
         else:
             rep.crash(f"{c.target}: {r['why']}")
     return results
+
+
+def write_baseline_counts(modnames):
+    reg, cs = load_contracts(modnames)
+    out = {}
+    items = [(tuple(modnames), c.key, False) for c in cs]
+    for st, r in pmap(_verify_one, items, chunk=1):
+        if st == "ok" and r["status"] == "ok":
+            out[r["target"]] = len(r["obligations"])
+    try:
+        cur = json.load(open(BASELINE))
+    except (OSError, ValueError):
+        cur = {}
+    cur.update(out)
+    with open(BASELINE, "w") as f:
+        json.dump(cur, f, indent=1, sort_keys=True)
+    return out
 
 
 def write_baseline(modnames):
